@@ -647,27 +647,11 @@ def shrink_schedule(runner, sc, schedule, site, line_level=False):
         return schedule
 
 
-def ask_retry(ctx, reqs):
-    """the driver binary is shared by all checks and is briefly absent while another check relinks it"""
-    for attempt in range(30):
-        try:
-            return ctx.driver().ask_many(reqs)
-        except (FileNotFoundError, PermissionError, OSError) as e:
-            last = e
-            time.sleep(1.0)
-        except Exception as e:
-            if "driver not built" not in str(e):
-                raise
-            last = e
-            time.sleep(1.0)
-    raise last
-
-
 def check_model(ctx, stream, pending):
     """pending: list of (sc, o).  One batch to the Lean driver."""
     if not pending:
         return
-    outs = ask_retry(ctx, [model_request(sc, o.trace) for sc, o in pending])
+    outs = ctx.driver().ask_many([model_request(sc, o.trace) for sc, o in pending])
     for (sc, o), m in zip(pending, outs):
         a = impl_answer(sc, o)
         if m != a:
@@ -825,7 +809,7 @@ def replay(ctx, data):
             print("replay: %s: %s" % (site, detail))
         ok = not bad
         if not case.get("line_level"):
-            m = ask_retry(ctx, [model_request(sc, o.trace)])[0]
+            m = ctx.driver().ask(model_request(sc, o.trace))
             a = impl_answer(sc, o)
             print("model:", m)
             print("impl :", a)
